@@ -40,7 +40,7 @@ func (o SOp) String() string {
 		return fmt.Sprintf("retag(%q->%q)", o.From, o.Ref)
 	case "resolve", "untag":
 		return fmt.Sprintf("%s(%q)", o.Op, o.Ref)
-	case "gc", "saveindex", "tags":
+	case "gc", "gccancel", "saveindex", "tags":
 		return o.Op + "()"
 	case "reopen":
 		return "reopen(" + o.How + ")"
@@ -286,6 +286,9 @@ func (m *SModel) Apply(op SOp) SRes {
 	case "gc":
 		m.gc()
 		return SRes{}
+	case "gccancel":
+		// GC under a context that is already cancelled: whatever it answers, it must leave everything as it was
+		return SRes{Err: "*"}
 	case "saveindex", "reopen":
 		return SRes{}
 	}
@@ -548,6 +551,12 @@ func execOp(ctx context.Context, st any, g *Graph, op SOp) SRes {
 		return errRes(st.(interface {
 			GC(ctx context.Context) error
 		}).GC(ctx))
+	case "gccancel":
+		cctx, cancel := context.WithCancel(ctx)
+		cancel()
+		return errRes(st.(interface {
+			GC(ctx context.Context) error
+		}).GC(cctx))
 	case "saveindex":
 		return SRes{Err: errClass(st.(interface{ SaveIndex() error }).SaveIndex())}
 	}
